@@ -61,8 +61,10 @@ LEVEL_NOTE = (
 )
 RULE = (
     "image: for each of the 230 DPT classes every DPTBinary value of its bit length, every 1-octet payload, for "
-    "2-octet payloads a stride sample (all 65,536 at the thorough tier), for longer payloads every octet value in "
-    "every position over two backgrounds plus Hypothesis-generated arrays; non-trivial = payload accepted by the "
+    "2-octet payloads edge values + a stride sample (all 65,536 at the thorough tier for one class per codec), for "
+    "longer payloads octet values swept through every position over one or two backgrounds (classes sharing a "
+    "codec with an earlier class get the coarse sample at the quick tier) plus Hypothesis-generated arrays; "
+    "non-trivial = payload accepted by the "
     "decoder and decoding to a value other than the type's zero/first value. pages: DptFilter(main in real and "
     "unreal main numbers or None, text in fragments of real numbers / value types / units or random text, "
     "limit >= 1 or negative, offset >= 0); non-trivial = the walk needs more than one page or the filter selects "
@@ -145,7 +147,7 @@ def same(a: Any, b: Any) -> bool:
     if isinstance(a, float) and isinstance(b, float) and math.isnan(a) and math.isnan(b):
         return True
     if isinstance(a, str) and isinstance(b, str):
-        return a.replace("�", "?") == b.replace("�", "?")
+        return a.replace("\ufffd", "?") == b.replace("\ufffd", "?")
     if isinstance(a, (list, tuple)) and isinstance(b, (list, tuple)):
         return len(a) == len(b) and all(same(x, y) for x, y in zip(a, b))
     if isinstance(a, dict) and isinstance(b, dict):
@@ -249,26 +251,51 @@ def roundtrip(ctx, dpt: type[DPTBase], payload: int | list[int], count: bool = T
         ctx.fail(f"C45:roundtrip-neq:{dpt.__name__}", inp, f"decode({payload!r}) = {v!r}; encode -> {p2!r}; decode -> {v2!r}")
 
 
+_EDGE16 = [0, 1, 0x1C, 0x1D, 0xFF, 0x100, 0x7FF, 0x800, 0x0C1A, 0x7FFE, 0x7FFF, 0x8000, 0x8001, 0x87FF, 0xF800, 0xFFFE, 0xFFFF]
+
+
+def _codec_key(dpt: type[DPTBase]) -> Any:
+    return (getattr(dpt.from_knx, "__func__", dpt.from_knx), getattr(dpt.to_knx, "__func__", dpt.to_knx), getattr(getattr(dpt, "_to_knx", None), "__func__", None))
+
+
+_FIRST_OF_CODEC: dict[Any, type] = {}
+
+
+def is_codec_owner(dpt: type[DPTBase]) -> bool:
+    """First class (catalogue order) of each distinct decoder/encoder implementation."""
+    if not _FIRST_OF_CODEC:
+        for d in V.all_dpts():
+            _FIRST_OF_CODEC.setdefault(_codec_key(d), d)
+    return _FIRST_OF_CODEC[_codec_key(dpt)] is dpt
+
+
 def image_payloads(dpt: type[DPTBase], quick: bool) -> list[Any]:
+    """Payloads offered to the decoder.  6-bit and 1-octet payloads exhaustively; 2-octet payloads by
+    stride (all at the thorough tier for one class per codec); longer ones by sweeping every position.
+    At the quick tier classes that share their codec with an earlier class (the 84 DPT 14 subtypes, the
+    DPT 9 subtypes, ...) get the edge values and a coarse sample only - their ranges differ, their code does not."""
     if dpt.payload_type is DPTBinary:
         return list(range(2 ** min(dpt.payload_length, 6))) + ([2**dpt.payload_length] if dpt.payload_length < 6 else [])
     n = dpt.payload_length
+    owner = is_codec_owner(dpt)
     if n == 1:
         return [[b] for b in range(256)]
     if n == 2:
-        step = 37 if quick else 1
-        vals = sorted(set(range(0, 65536, step)) | {0, 1, 0x1C, 0x1D, 0x7FF, 0x800, 0x7FFF, 0x8000, 0x8001, 0xFFFE, 0xFFFF, 0x0C1A, 0x87FF, 0xF800})
+        step = (211 if owner else 1499) if quick else (1 if owner else 37)
+        vals = sorted(set(range(0, 65536, step)) | set(_EDGE16))
         return [[v >> 8, v & 0xFF] for v in vals]
     out: list[list[int]] = []
-    backgrounds = [[0] * n, [0x21] * n]
-    step = 1 if (not quick or n <= 4) else 3
-    for bg in backgrounds:
+    if quick:
+        plans = [([0] * n, 5), ([0x21] * n, 51)] if owner else [([0] * n, 51)]
+    else:
+        plans = [([0] * n, 1), ([0x21] * n, 1)] if owner else [([0] * n, 5), ([0x21] * n, 17)]
+    for bg, step in plans:
         for pos in range(n):
-            for val in range(0, 256, step):
+            for val in sorted(set(range(0, 256, step)) | {0x7F, 0x80, 0xFF}):
                 p = list(bg)
                 p[pos] = val
                 out.append(p)
-    out += [[0xFF] * n, [0x7F] * n, [0x80] * n]
+    out += [[0xFF] * n, [0x7F] * n, [0x80] * n, [0x7F, 0x80] + [0] * (n - 2), [0x7F, 0xC0] + [0] * (n - 2), [0xFF, 0x80] + [0] * (n - 2)]
     return out
 
 
@@ -343,7 +370,9 @@ def check_pages(ctx, case: dict, count: bool = True) -> None:
         ctx.fail("C45:listing-order", inp, f"unpaginated listing is not ordered by DPT number: {all_rows[:6]} ... expected {ref[:6]}")
     if fd["total_count"] != len(all_rows) or fd["next_offset"] is not None or fd["limit_reached"]:
         ctx.fail("C45:unpaginated-metadata", inp, f"total_count={fd['total_count']} rows={len(all_rows)} next_offset={fd['next_offset']} limit_reached={fd['limit_reached']}")
-    # walk
+    # walk (at most ~40 pages: a long catalogue with a tiny limit is entered near its end)
+    if limit > 0 and len(all_rows) - offset > 40 * limit:
+        offset = len(all_rows) - 40 * limit
     collected: list[tuple[str, str | None]] = []
     cur = offset
     pages = 0
@@ -546,8 +575,18 @@ def _hyp_shard(ctx, n_pages: int, n_tools: int) -> None:
 # ----------------------------------------------------------------------------- drivers
 
 
+def _enumerated_shard(ctx, nshards: int) -> None:
+    _image_shard(ctx, nshards)
+    _read_image_shard(ctx, nshards)
+
+
+def _generated_shard(ctx, n_image: int, n_pages: int, n_tools: int) -> None:
+    _image_hyp_shard(ctx, n_image)
+    _hyp_shard(ctx, n_pages, n_tools)
+
+
 def selftest(ctx) -> None:
-    assert same(float("nan"), float("nan")) and same("a�", "a?") and not same(1, True) and same([1, {"a": 2.0}], (1, {"a": 2}))
+    assert same(float("nan"), float("nan")) and same("a\ufffd", "a?") and not same(1, True) and same([1, {"a": 2.0}], (1, {"a": 2}))
     assert native_defect({"a": [1, 2.5, None, "x", True]}) is None and native_defect({"a": DPTBinary(1)}) is not None
     assert native_defect({1: 2}) is not None
     ref = ref_listing(None, None)
@@ -570,10 +609,8 @@ def run(ctx) -> None:
         for limit in (1, 2, 7, 200, 1000, -1):
             for offset in (0, 1, 5, 230, 10_000):
                 check_pages(ctx, {"main": main, "text": text, "limit": limit, "offset": offset})
-    parallel(ctx, _image_shard, [(nshards,)] * nshards)
-    parallel(ctx, _read_image_shard, [(nshards,)] * nshards)
-    parallel(ctx, _image_hyp_shard, [(ctx.n(300, 8000),)] * nshards)
-    parallel(ctx, _hyp_shard, [(ctx.n(150, 4000), ctx.n(200, 5000))] * nshards)
+    parallel(ctx, _enumerated_shard, [(nshards,)] * nshards)
+    parallel(ctx, _generated_shard, [(ctx.n(150, 8000), ctx.n(60, 2500), ctx.n(120, 5000))] * nshards)
 
 
 def replay(ctx, case) -> None:
